@@ -5,6 +5,7 @@
 package main
 
 import (
+	"bytes"
 	"encoding/hex"
 	"encoding/json"
 	"fmt"
@@ -33,6 +34,11 @@ type ioCase struct {
 	Sweep *sweepSpec `json:"sweep,omitempty"`
 	// Seq: several values through ONE encoder: steps {"op":"encode","t":..,"v":..} or {"op":"reset"}
 	Seq []seqStep `json:"seq,omitempty"`
+	// Writer: the sequence goes through NewEncoder(w); steps may then also be {"op":"resetbuffer"},
+	// which must not change what reaches w
+	Writer bool `json:"writer,omitempty"`
+	// TZ: offset in seconds of the zone installed as time.Local while this case runs (0 = leave it)
+	TZ int `json:"tz,omitempty"`
 }
 
 type sweepSpec struct {
@@ -43,11 +49,11 @@ type sweepSpec struct {
 }
 
 type sweepObs struct {
-	Count    uint64   `json:"count"`
-	Bad      []string `json:"bad"` // first mismatching bit patterns (hex) with what came back
-	Hazards  []string `json:"hazards,omitempty"`
-	NBad     uint64   `json:"nbad"`
-	Positions int     `json:"positions"`
+	Count     uint64   `json:"count"`
+	Bad       []string `json:"bad"` // first mismatching bit patterns (hex) with what came back
+	Hazards   []string `json:"hazards,omitempty"`
+	NBad      uint64   `json:"nbad"`
+	Positions int      `json:"positions"`
 }
 
 func runSweep(sp *sweepSpec) sweepObs {
@@ -125,7 +131,7 @@ type seqObs struct {
 	Steps    []string `json:"steps"` // per step: "reset" or the sexp of the value encoded
 	EncErr   string   `json:"enc_err,omitempty"`
 	EncPanic string   `json:"enc_panic,omitempty"`
-	DecErr   string   `json:"dec_err,omitempty"`   // decoding the whole stream back with one decoder (Reset at the same places)
+	DecErr   string   `json:"dec_err,omitempty"` // decoding the whole stream back with one decoder (Reset at the same places)
 	DecPanic string   `json:"dec_panic,omitempty"`
 	RT       string   `json:"rt"`
 }
@@ -170,6 +176,11 @@ func runCase(line []byte, out *json.Encoder) error {
 		return err
 	}
 	hvlib.Begin(c.ID)
+	if c.TZ != 0 {
+		old := time.Local
+		time.Local = time.FixedZone("HVZ", c.TZ)
+		defer func() { time.Local = old }()
+	}
 	obs := ioObs{ID: c.ID, Modes: map[string]modeObs{}}
 	if c.Sweep != nil {
 		hvlib.CaseTimeout = 30 * time.Minute
@@ -255,8 +266,9 @@ func runSeq(c *ioCase, obs *ioObs) {
 	obs.SeqModes = map[string]seqObs{}
 	b := &builder{ptrs: map[int]reflect.Value{}}
 	type item struct {
-		reset bool
-		v     reflect.Value
+		reset    bool
+		resetbuf bool
+		v        reflect.Value
 	}
 	var items []item
 	var steps []string
@@ -265,6 +277,11 @@ func runSeq(c *ioCase, obs *ioObs) {
 		if st.Op == "reset" {
 			items = append(items, item{reset: true})
 			steps = append(steps, "reset")
+			continue
+		}
+		if st.Op == "resetbuffer" {
+			// only with a Writer: everything encoded so far has been flushed, nothing may be lost or repeated
+			items = append(items, item{resetbuf: true})
 			continue
 		}
 		t, err := typeOf(st.T)
@@ -289,11 +306,19 @@ func runSeq(c *ioCase, obs *ioObs) {
 	}
 	for _, m := range modes {
 		so := seqObs{Steps: steps}
+		var wbuf bytes.Buffer
 		enc := new(hio.Encoder).Simple(m == "simple")
+		if c.Writer {
+			enc = hio.NewEncoder(&wbuf).Simple(m == "simple")
+		}
 		so.EncPanic = safely(func() {
 			for _, it := range items {
 				if it.reset {
 					enc.Reset()
+				} else if it.resetbuf {
+					if c.Writer {
+						enc.ResetBuffer()
+					}
 				} else if e := enc.Encode(it.v.Interface()); e != nil {
 					so.EncErr = e.Error()
 				}
@@ -301,12 +326,18 @@ func runSeq(c *ioCase, obs *ioObs) {
 		})
 		if so.EncPanic == "" && so.EncErr == "" {
 			data := enc.Bytes()
+			if c.Writer {
+				data = wbuf.Bytes()
+			}
 			so.Hex = hex.EncodeToString(data)
 			dec := hio.NewDecoder(data).Simple(m == "simple")
 			so.DecPanic = safely(func() {
 				for i, it := range items {
 					if it.reset {
 						dec.Reset()
+						continue
+					}
+					if it.resetbuf {
 						continue
 					}
 					dst := reflect.New(it.v.Type())
